@@ -95,7 +95,33 @@ def draw_pipe(rng: random.Random, arrangement: str) -> dict:
     }
 
 
+def rows_ok(side: float, b_min: float, b_max: float) -> bool:
+    """some integer row count n >= 3 has b_min <= side/(n-1) <= b_max (else the generators yield empty lists)"""
+    n_lo = math.ceil(side / b_max + 1)
+    n_hi = math.floor(side / b_min + 1)
+    return n_lo <= n_hi and n_lo >= 3
+
+
 def draw_geometry(rng: random.Random, method: str, small: bool = True) -> dict:
+    for _ in range(500):
+        g = _draw_geometry(rng, method, small)
+        if method in ("RECTANGLE",):
+            ok = rows_ok(g["length"], g["b_min"], g["b_max"]) and rows_ok(g["width"], g["b_min"], g["b_max"])
+        elif method in ("BIRECTANGLE", "BIZONEDRECTANGLE"):
+            ok = all(rows_ok(sd, g["b_min"], bm) for sd in (g["length"], g["width"]) for bm in (g["b_max_x"], g["b_max_y"]))
+        elif method == "BIRECTANGLECONSTRAINED":
+            xs = [p[0] for p in g["property_boundary"]]
+            ys = [p[1] for p in g["property_boundary"]]
+            ok = all(rows_ok(sd, g["b_min"], bm) for sd in (max(xs) - min(xs), max(ys) - min(ys))
+                     for bm in (g["b_max_x"], g["b_max_y"]))
+        else:
+            ok = True
+        if ok:
+            return g
+    raise RuntimeError("geometry generator exhausted")
+
+
+def _draw_geometry(rng: random.Random, method: str, small: bool = True) -> dict:
     lo, hi = (15.0, 40.0) if small else (30.0, 80.0)
     length = r3(rng.uniform(lo, hi))
     shape = rng.choice(["lt", "eq", "gt"])
